@@ -95,6 +95,7 @@ type Ctx struct {
 	ghostFired  map[*GhostStmt]bool
 	privBoxes   map[*ssa.Function][]*ssa.Alloc
 	privSlices  map[*ssa.Function][]*ssa.Alloc
+	privMaps    map[*ssa.Function][]*ssa.Alloc
 	finalComps  map[string]bool // heap components of fields that are never written once their object exists (A-FINAL)
 	skippedAbs  map[int]int // loop ordinal -> obligations not generated because the loop is declared abstract
 	defs        map[string]string
